@@ -20,3 +20,20 @@ def make(prop, profile_fn, config, post=None):
         return prog
 
     return generate, worlda.execute, worlda.simplifications
+
+
+def inject_stealth(prog, r, p=0.2):
+    """MH deliveries that do NOT wait for the folder's mtime second to advance, placed right
+    after a command that made the server write to that folder: the server has recorded that
+    very second, so the message stays unnoticed (legitimately - one-second mtimes) until
+    something else touches the folder. What must still hold then: it is never half visible,
+    and whatever arrives next (COPY, APPEND, delivery) gets and reports its own UIDs."""
+    out = []
+    for op in prog["ops"]:
+        out.append(op)
+        if op.get("op") in ("append", "copy", "move") and r.random() < p:
+            mbox = op.get("mbox") or op.get("dst")
+            if mbox:
+                out.append({"actor": "agent", "op": "deliver", "mbox": mbox, "count": 1, "unseen": r.random() < 0.7, "advance": False})
+    prog["ops"] = out
+    return prog
